@@ -143,7 +143,8 @@ def readGnuNewSparse (s : Bytes) (recordSize : Nat) : Option (List (Nat × Nat) 
 
 def toSignedField (field : Nat) : Int := toSigned field
 
-/-- `decode_header`; numeric fields not overridden by a PAX record come from the header -/
+/-- `decode_header`; numeric fields not overridden by a PAX record come from the header
+    (the `if`s are parenthesised terms, not `do`-level branches: no join points, the term stays linear) -/
 def decodeHeader (h : Bytes) (mask : Nat) (out : Decoded) (v : Version) : Option Decoded := do
   let out :=
     if hasFlag mask PAX_NAME then out
@@ -152,18 +153,18 @@ def decodeHeader (h : Bytes) (mask : Nat) (out : Decoded) (v : Version) : Option
       if pfx.headD 0 ≠ 0 ∧ v = .posix then
         { out with name := some (strn pfx ++ [47] ++ strn (slice h 0 100)) }
       else { out with name := some (strn (slice h 0 100)) }
-  let out ← if hasFlag mask PAX_SIZE then some out
-            else (readNumber (slice h 124 12)).map fun x => { out with recordSize := x }
-  let out ← if hasFlag mask PAX_UID then some out
-            else (readNumber (slice h 108 8)).map fun x => { out with uid := x }
-  let out ← if hasFlag mask PAX_GID then some out
-            else (readNumber (slice h 116 8)).map fun x => { out with gid := x }
-  let out ← if hasFlag mask PAX_DEV_MAJ then some out
-            else (readNumber (slice h 329 8)).map fun x => { out with devMajor := x % 4294967296 }
-  let out ← if hasFlag mask PAX_DEV_MIN then some out
-            else (readNumber (slice h 337 8)).map fun x => { out with devMinor := x % 4294967296 }
-  let out ← if hasFlag mask PAX_MTIME then some out
-            else (readNumber (slice h 136 12)).map fun x => { out with mtime := toSigned x }
+  let out ← (if hasFlag mask PAX_SIZE then some out
+             else (readNumber (slice h 124 12)).map fun x => { out with recordSize := x })
+  let out ← (if hasFlag mask PAX_UID then some out
+             else (readNumber (slice h 108 8)).map fun x => { out with uid := x })
+  let out ← (if hasFlag mask PAX_GID then some out
+             else (readNumber (slice h 116 8)).map fun x => { out with gid := x })
+  let out ← (if hasFlag mask PAX_DEV_MAJ then some out
+             else (readNumber (slice h 329 8)).map fun x => { out with devMajor := x % 4294967296 })
+  let out ← (if hasFlag mask PAX_DEV_MIN then some out
+             else (readNumber (slice h 337 8)).map fun x => { out with devMinor := x % 4294967296 })
+  let out ← (if hasFlag mask PAX_MTIME then some out
+             else (readNumber (slice h 136 12)).map fun x => { out with mtime := toSigned x })
   let m ← readNumber (slice h 100 8)
   let out := { out with mode := m % 4096 }
   let tf := (slice h 156 1).headD 0
@@ -203,12 +204,16 @@ def isZeroBlock (h : Bytes) : Bool := h.all (· = 0)
 structure ReadCfg where
   rejectOversizedMap : Bool := true
   xattrKeepOrder : Bool := false
+  schilyKeyDecode : Bool := true          -- `false`: the reader before `fixes/C04-xattr-key-escape.patch`
 
 /-- the `for (;;)` loop of `read_header`; `fuel` bounds the number of 512-byte records read -/
 def readHeaderLoop (cfg : ReadCfg) : Nat → Bytes → Decoded → Nat → Bool → ReadResult
   | 0, _, _, _, _ => .err
   | f + 1, s, out, mask, prevZero =>
-    if s.length < 512 then .eof
+    if s.length < 512 then
+      -- short read: trailing garbage that is shorter than a header is not a clean end of the archive (fix 800780c);
+      -- nothing at all, or only zero bytes, is
+      if isZeroBlock s then .eof else .err
     else
       let h := s.take 512
       let s := s.drop 512
@@ -250,7 +255,7 @@ def readHeaderLoop (cfg : ReadCfg) : Nat → Bytes → Decoded → Nat → Bool 
                 else match recordToMemory s sz with
                   | none => .err
                   | some (p, s') =>
-                    match readPaxHeader cfg.xattrKeepOrder p {} 0 with                -- `clear_header(out); set_by_pax = 0`
+                    match readPaxHeader ⟨cfg.xattrKeepOrder, cfg.schilyKeyDecode⟩ p {} 0 with                -- `clear_header(out); set_by_pax = 0`
                     | none => .err
                     | some (out', mask') => readHeaderLoop cfg f s' out' mask' false
             else
